@@ -167,7 +167,6 @@ func (ex *Exec) InvParts(db *SymDB, now *Term) []namedTerm {
 	// I4 tasks
 	if tk := db.tabs["tasks"]; tk != nil {
 		p := db.tabs["promises"]
-		cb := db.tabs["callbacks"]
 		subs := map[string][]*Term{}
 		for _, r := range tk.rows {
 			id := tk.c(r, "id").v
@@ -176,13 +175,6 @@ func (ex *Exec) InvParts(db *SymDB, now *Term) []namedTerm {
 			var hasPromise []*Term
 			for _, pr := range p.rows {
 				hasPromise = append(hasPromise, tt.And(pr.present, tt.Eq(id, tt.Concat(tt.Str("__invoke:"), p.c(pr, "id").v))))
-			}
-			// a task made from a callback never coexists with that callback (ids would collide on conversion)
-			var noCb []*Term
-			if cb != nil {
-				for _, cr := range cb.rows {
-					noCb = append(noCb, tt.Not(tt.And(cr.present, tt.Eq(cb.c(cr, "id").v, id))))
-				}
 			}
 			sub := []namedTerm{
 				{"notnull", ex.notNull(tk, r, "id", "state", "root_promise_id", "recv", "mesg", "timeout", "counter", "attempt", "ttl", "expires_at", "created_on")},
@@ -194,14 +186,13 @@ func (ex *Exec) InvParts(db *SymDB, now *Term) []namedTerm {
 				{"claimed-has-process", tt.Implies(tt.Eq(st, tt.BV(4, 64)), tt.Not(tk.c(r, "process_id").null))},
 				{"idprefix", tt.Or(isInvoke, tt.PrefixOf(tt.Str("__resume:"), id), tt.PrefixOf(tt.Str("__notify:"), id))},
 				{"invoke-has-promise", tt.Implies(isInvoke, tt.Or(hasPromise...))},
-				{"no-callback-twin", tt.And(noCb...)},
 				{"mesg", tt.And(ex.validMesg(tk.c(r, "mesg").v), tt.Eq(ex.mesgField(tk.c(r, "mesg").v, 1), tk.c(r, "root_promise_id").v))},
 			}
 			for _, sp := range sub {
 				subs[sp.name] = append(subs[sp.name], tt.Implies(r.present, sp.t))
 			}
 		}
-		for _, n := range []string{"notnull", "states", "counter", "attempt", "ttl", "claimed-has-process", "idprefix", "invoke-has-promise", "no-callback-twin", "mesg"} {
+		for _, n := range []string{"notnull", "states", "counter", "attempt", "ttl", "claimed-has-process", "idprefix", "invoke-has-promise", "mesg"} {
 			out = append(out, namedTerm{"I4:tasks:" + n, tt.And(subs[n]...)})
 		}
 		out = append(out, namedTerm{"B:tasks:ranges", tt.And(subs["B:ranges"]...)})
